@@ -686,6 +686,54 @@ pub fn with_resolve(sys: System) -> System {
     sys
 }
 
+/// Add a short but clearly non-degenerate feature to a planted system: an edge of length 1.5e-3..9e-3
+/// (or an arc of that radius) whose guess is off by up to 30% of the feature's own size (below 1% of the sketch scale).  One end /
+/// the centre is pinned and one more coordinate is fixed, so the feature is fully determined and
+/// well conditioned; its length is ten times and more above the documented guard of 1e-4.
+pub fn with_short_feature(rng: &mut Rng, mut sys: System) -> System {
+    let Some(mut xs) = sys.planted.clone() else { return sys };
+    let d = 1.5e-3 + 7.5e-3 * rng.unit();
+    let (px, py) = (sys.scale * rng.sym(), sys.scale * rng.sym());
+    let base = xs.len() as u32;
+    let ang = |rng: &mut Rng| (50.0 + 80.0 * rng.unit()).to_radians() * if rng.chance(1, 2) { 1.0 } else { -1.0 };
+    let mut new_vals: Vec<f64> = Vec::new();
+    let mut cons: Vec<Constraint> = Vec::new();
+    let p = DatumPoint::new_xy(base, base + 1);
+    new_vals.extend([px, py]);
+    cons.push(Constraint::Fixed(base, px));
+    cons.push(Constraint::Fixed(base + 1, py));
+    if rng.chance(1, 2) {
+        let t = ang(rng);
+        let q = DatumPoint::new_xy(base + 2, base + 3);
+        new_vals.extend([px + d * t.cos(), py + d * t.sin()]);
+        cons.push(Constraint::Distance(p, q, d));
+        cons.push(Constraint::Fixed(base + 2, px + d * t.cos()));
+    } else {
+        let (t0, t1) = (ang(rng), ang(rng));
+        let start = DatumPoint::new_xy(base + 2, base + 3);
+        let end = DatumPoint::new_xy(base + 4, base + 5);
+        new_vals.extend([px + d * t0.cos(), py + d * t0.sin(), px + d * t1.cos(), py + d * t1.sin()]);
+        cons.push(Constraint::ArcRadius(DatumCircularArc { center: p, start, end }, d));
+        cons.push(Constraint::Fixed(base + 2, px + d * t0.cos()));
+        cons.push(Constraint::Fixed(base + 4, px + d * t1.cos()));
+    }
+    for (k, v) in new_vals.iter().enumerate() {
+        // the pinned point starts exactly in place
+        // (off by up to 30% of the feature's size, never more than 0.9% of the sketch scale: the error
+        // is then above the solver's own "satisfied" threshold of 1e-4 for most features)
+        let amp = (0.3 * d).min(0.009 * sys.scale);
+        let off = if k < 2 { 0.0 } else { amp * (0.4 + 0.6 * rng.unit()) * if rng.chance(1, 2) { 1.0 } else { -1.0 } };
+        sys.guesses.push((base + k as u32, v + off));
+        xs.push(*v);
+    }
+    for c in cons {
+        let at = rng.below(sys.reqs.len() + 1);
+        sys.reqs.insert(at, ConstraintRequest::highest_priority(c));
+    }
+    sys.planted = Some(xs);
+    sys
+}
+
 /// Collapse part of the geometry in the guess: about half of the variables get one common value, so
 /// lines of zero length, coincident points and zero-radius arcs occur and several different requests
 /// raise their degeneracy flag in the same run.
